@@ -56,6 +56,14 @@ func main() {
 	os.Exit(code)
 }
 
+func firstWords(s string, n int) string {
+	w := strings.Fields(s)
+	if len(w) > n {
+		w = w[:n]
+	}
+	return strings.Join(w, " ")
+}
+
 const rule = "non-trivial = the sorter under test has at least two keys (nested if-chain), or a bool key, or an accessor key"
 
 func run(f *hx.Flags, w *world) int {
@@ -69,6 +77,15 @@ func run(f *hx.Flags, w *world) int {
 			return "tie-broken"
 		}
 		return ""
+	}
+	// a regeneration history (layout, previous definition, edited definition) is the failing input
+	// as a whole: the shrinker only drops query lines after it
+	r.ShrinkKeep = func(lines []string, i int) bool {
+		hist := false
+		for _, l := range lines {
+			hist = hist || strings.HasPrefix(l, "gso regen")
+		}
+		return hist && (strings.HasPrefix(lines[i], "gso layout") || strings.HasPrefix(lines[i], "gso def") || strings.HasPrefix(lines[i], "gso regen"))
 	}
 	if r.HandleReplay() {
 		return 0
@@ -87,6 +104,7 @@ func run(f *hx.Flags, w *world) int {
 		}
 		g.emit(defs, true)
 	}
+	g.histories()
 	g.outOfDomain()
 	r.Res.Exhaustive = true
 	r.Res.Notes["exhaustive"] = "Less is compared on ALL pairs of the value space (2-3 values per field) of every definition; sort/stable on all slices of length <= 4 for value spaces up to the tier's bound, random slices (length <= 200, 5 values per field) otherwise"
@@ -97,6 +115,8 @@ func run(f *hx.Flags, w *world) int {
 	r.Res.Extra["chains_compared"] = g.nChains
 	r.Res.Extra["less_pairs_compared"] = g.nPairs
 	r.Res.Extra["sort_queries"] = g.nSorts
+	r.Res.Extra["regeneration_histories"] = g.nHist
+	r.Res.Notes["histories"] = "regeneration histories: layout (struct in the directive file / in another file of the package, -in-file / $GOFILE, default / named output) x edit of the struct's tags (" + strings.Join(editKinds, ", ") + "), second generation over the previous output; all queries go to the code of the second generation"
 	r.Finish()
 	return 0
 }
@@ -104,10 +124,12 @@ func run(f *hx.Flags, w *world) int {
 // keyOf: canonical class of a failing input.
 func keyOf(d *hx.Disagreement) string {
 	var def *Def
+	history := false
 	for _, l := range d.Case.Lines {
-		if strings.HasPrefix(l, "gso def") {
-			def, _ = parseDefLine(l)
+		if strings.HasPrefix(l, "gso def") || strings.HasPrefix(l, "gso regen") {
+			def, _ = parseDefLine(l) // the CURRENT definition is the last one
 		}
+		history = history || strings.HasPrefix(l, "gso regen")
 	}
 	ws := strings.Fields(d.Request)
 	if len(ws) < 2 {
@@ -116,6 +138,12 @@ func keyOf(d *hx.Disagreement) string {
 	op := ws[1]
 	if op == "def" {
 		return "C08:generate:" + d.Impl
+	}
+	if op == "regen" {
+		return "C08:regenerate:" + firstWords(d.Impl, 1)
+	}
+	if history {
+		return "C08:after-regeneration:" + op
 	}
 	if def != nil && len(ws) >= 3 && def.lastKeyIsBool(ws[2]) {
 		return "C08:bool-last-key"
@@ -134,6 +162,7 @@ type gen struct {
 	nChains  int
 	nPairs   int
 	nSorts   int
+	nHist    int
 }
 
 func (g *gen) nextSerial() int { g.serial++; return g.serial }
@@ -354,114 +383,120 @@ func (g *gen) emit(defs []*Def, domain bool) {
 	g.w.prepare(defs)
 	for _, d := range defs {
 		g.nDefs++
-		hdr := fmt.Sprintf("case gsort %d", g.nDefs)
-		nv := g.smallSpace(d)
-		space := allRecs(nv)
-		sorters := d.Sorters()
-		if len(sorters) == 0 {
-			g.r.Add(hx.Case{Lines: []string{hdr, d.Line()}, Domain: domain, Tags: []string{"no-sorter"}})
-			continue
+		g.emitCases([]string{fmt.Sprintf("case gsort %d", g.nDefs), d.Line()}, d, domain, nil)
+	}
+}
+
+// emitCases adds the cases of ONE definition; prefix = the request lines that establish it on both
+// sides (header + `gso def`, or header + layout + def + regen for a regeneration history).
+func (g *gen) emitCases(prefix []string, d *Def, domain bool, extra []string) {
+	pre := func(more ...string) []string { return append(append([]string{}, prefix...), more...) }
+	nv := g.smallSpace(d)
+	space := allRecs(nv)
+	sorters := d.Sorters()
+	if len(sorters) == 0 {
+		g.r.Add(hx.Case{Lines: pre(), Domain: domain, Tags: append([]string{"no-sorter"}, extra...)})
+		return
+	}
+	for _, raw := range sorters {
+		g.nSorters++
+		nt := g.nontrivial(d, raw)
+		tags := []string{fmt.Sprintf("keys:%d", len(d.keysOf(raw)))}
+		if strings.HasPrefix(raw, "*") {
+			tags = append(tags, "pointer-form")
+		} else {
+			tags = append(tags, "value-form")
 		}
-		for _, raw := range sorters {
-			g.nSorters++
-			nt := g.nontrivial(d, raw)
-			tags := []string{fmt.Sprintf("keys:%d", len(d.keysOf(raw)))}
-			if strings.HasPrefix(raw, "*") {
-				tags = append(tags, "pointer-form")
-			} else {
-				tags = append(tags, "value-form")
+		for _, k := range d.keysOf(raw) {
+			t := "key:" + d.Fields[k.field].Ty
+			if k.accessor {
+				t += ".String()"
 			}
-			for _, k := range d.keysOf(raw) {
-				t := "key:" + d.Fields[k.field].Ty
-				if k.accessor {
-					t += ".String()"
-				}
-				tags = append(tags, t)
-			}
-			if d.lastKeyIsBool(raw) {
-				tags = append(tags, "bool-last-key")
-			}
-			// (2a) Less on all pairs of the value space
-			g.r.Add(hx.Case{Lines: []string{hdr, d.Line(), "gso lessall " + raw + " " + recsString(space)}, Domain: domain, Nontrivial: nt, Tags: []string{"less-all-pairs"}})
-			g.nPairs += len(space) * len(space)
-			// (1) the generated program itself
-			g.r.Add(hx.Case{Lines: []string{hdr, d.Line(), "gso chain " + raw}, Domain: domain, Nontrivial: nt, Tags: append([]string{"chain"}, tags...)})
-			g.nChains++
-			// (2b) sorting
-			lines := []string{hdr, d.Line()}
-			bound := 4
-			if g.thorough {
-				bound = 9
-			}
-			if len(space) <= bound {
-				// all slices of length <= 4
-				var slices [][][]int
-				cur := [][][]int{{}}
-				for l := 1; l <= 4; l++ {
-					var next [][][]int
-					for _, s := range cur {
-						for _, r := range space {
-							next = append(next, append(append([][]int{}, s...), r))
-						}
-					}
-					slices = append(slices, next...)
-					cur = next
-				}
-				for _, s := range slices {
-					rs := recsString(s)
-					lines = append(lines, "gso sort "+raw+" "+rs, "gso stable "+raw+" "+rs)
-					g.nSorts += 2
-					if len(lines) > 400 {
-						g.r.Add(hx.Case{Lines: lines, Domain: domain, Nontrivial: nt, Tags: []string{"sort-exhaustive-len<=4"}})
-						lines = []string{hdr, d.Line()}
+			tags = append(tags, t)
+		}
+		if d.lastKeyIsBool(raw) {
+			tags = append(tags, "bool-last-key")
+		}
+		// (2a) Less on all pairs of the value space
+		g.r.Add(hx.Case{Lines: pre("gso lessall " + raw + " " + recsString(space)), Domain: domain, Nontrivial: nt, Tags: append([]string{"less-all-pairs"}, extra...)})
+		g.nPairs += len(space) * len(space)
+		// (1) the generated program itself
+		g.r.Add(hx.Case{Lines: pre("gso chain " + raw), Domain: domain, Nontrivial: nt, Tags: append(append([]string{"chain"}, tags...), extra...)})
+		g.nChains++
+		// (2b) sorting
+		lines := pre()
+		bound := 4
+		if g.thorough {
+			bound = 9
+		}
+		if len(space) <= bound {
+			// all slices of length <= 4
+			var slices [][][]int
+			cur := [][][]int{{}}
+			for l := 1; l <= 4; l++ {
+				var next [][][]int
+				for _, s := range cur {
+					for _, r := range space {
+						next = append(next, append(append([][]int{}, s...), r))
 					}
 				}
-				if len(lines) > 2 {
-					g.r.Add(hx.Case{Lines: lines, Domain: domain, Nontrivial: nt, Tags: []string{"sort-exhaustive-len<=4"}})
-				}
-				lines = []string{hdr, d.Line()}
+				slices = append(slices, next...)
+				cur = next
 			}
-			// random slices: short over the small space, long over the full tables
-			nShort, nLong := 6, 3
-			if g.thorough {
-				nShort, nLong = 20, 10
-			}
-			for i := 0; i < nShort; i++ {
-				n := g.rng.Intn(5)
-				s := make([][]int, n)
-				for k := range s {
-					s[k] = space[g.rng.Intn(len(space))]
-				}
+			for _, s := range slices {
 				rs := recsString(s)
 				lines = append(lines, "gso sort "+raw+" "+rs, "gso stable "+raw+" "+rs)
 				g.nSorts += 2
-			}
-			for i := 0; i < nLong; i++ {
-				n := 5 + g.rng.Intn(196)
-				if i == 0 {
-					n = 200
+				if len(lines) > 400+len(prefix) {
+					g.r.Add(hx.Case{Lines: lines, Domain: domain, Nontrivial: nt, Tags: append([]string{"sort-exhaustive-len<=4"}, extra...)})
+					lines = pre()
 				}
-				width := 2 + g.rng.Intn(4) // few distinct values => many ties
-				s := make([][]int, n)
-				for k := range s {
-					rec := make([]int, len(d.Fields))
-					for fi, f := range d.Fields {
-						m := nValues(f.Ty)
-						if m > width {
-							m = width
-						}
-						rec[fi] = g.rng.Intn(m)
-					}
-					s[k] = rec
-				}
-				rs := recsString(s)
-				lines = append(lines, "gso sort "+raw+" "+rs, "gso stable "+raw+" "+rs)
-				g.nSorts += 2
 			}
-			n := 1 + g.rng.Intn(6)
-			lines = append(lines, fmt.Sprintf("gso swap %s %d %d %d", raw, g.rng.Intn(n), g.rng.Intn(n), n))
-			g.r.Add(hx.Case{Lines: lines, Domain: domain, Nontrivial: nt, Tags: []string{"sort-random"}})
+			if len(lines) > len(prefix) {
+				g.r.Add(hx.Case{Lines: lines, Domain: domain, Nontrivial: nt, Tags: append([]string{"sort-exhaustive-len<=4"}, extra...)})
+			}
+			lines = pre()
 		}
+		// random slices: short over the small space, long over the full tables
+		nShort, nLong := 6, 3
+		if g.thorough {
+			nShort, nLong = 20, 10
+		}
+		for i := 0; i < nShort; i++ {
+			n := g.rng.Intn(5)
+			s := make([][]int, n)
+			for k := range s {
+				s[k] = space[g.rng.Intn(len(space))]
+			}
+			rs := recsString(s)
+			lines = append(lines, "gso sort "+raw+" "+rs, "gso stable "+raw+" "+rs)
+			g.nSorts += 2
+		}
+		for i := 0; i < nLong; i++ {
+			n := 5 + g.rng.Intn(196)
+			if i == 0 {
+				n = 200
+			}
+			width := 2 + g.rng.Intn(4) // few distinct values => many ties
+			s := make([][]int, n)
+			for k := range s {
+				rec := make([]int, len(d.Fields))
+				for fi, f := range d.Fields {
+					m := nValues(f.Ty)
+					if m > width {
+						m = width
+					}
+					rec[fi] = g.rng.Intn(m)
+				}
+				s[k] = rec
+			}
+			rs := recsString(s)
+			lines = append(lines, "gso sort "+raw+" "+rs, "gso stable "+raw+" "+rs)
+			g.nSorts += 2
+		}
+		n := 1 + g.rng.Intn(6)
+		lines = append(lines, fmt.Sprintf("gso swap %s %d %d %d", raw, g.rng.Intn(n), g.rng.Intn(n), n))
+		g.r.Add(hx.Case{Lines: lines, Domain: domain, Nontrivial: nt, Tags: append([]string{"sort-random"}, extra...)})
 	}
 }
 
